@@ -360,6 +360,7 @@ def derive(out, *ins, differentiable=True, view_of=None):
             cost += t.cost
     out.prov = prov
     out.cost = cost
+    anc = frozenset()
     for t in ins:
         if isinstance(t, STensor):
             d = t.deps
@@ -367,8 +368,12 @@ def derive(out, *ins, differentiable=True, view_of=None):
                 d = d | frozenset([t.tid])
             deps = deps | d
             cut = cut or t.grad_cut
+            if t.deps:
+                # intermediate (non-leaf) ancestors of the autograd graph: needed for retain_grad() on non-leaf tensors
+                anc = anc | getattr(t, 'anc', frozenset()) | frozenset([t.tid])
     if differentiable:
         out.deps = deps
+        out.anc = anc
         out.grad_cut = cut
     else:
         out.deps = frozenset()
